@@ -311,7 +311,9 @@ def default_prefixes(tool, sb, cwd, style=None):
 
 def make_refY(sb):
     ref = gen.gen_model(1, ndims=3, nlevels=1, names=["density", "Y(H2)", "Y(O2)"], bf=4, base_blocks=(1, 1))
-    sb.refY = os.path.join(sb.ind, "pltrefY")
+    # every other time the reference plotfile is the plotfile of the checkpoint's own step (chk00005 / plt00005):
+    # the name the default output of the conversion would take
+    sb.refY = os.path.join(sb.ind, "plt00005" if getattr(sb, "seed", 0) % 2 == 0 else "pltrefY")
     gen.write_plotfile(ref, sb.refY)
     sb.inputs.append(sb.refY)
 
@@ -480,12 +482,20 @@ def run_faults(case, work, rec):
     snaps0 = {p: fsaudit.snapshot(p) for p in sb.inputs}
     # every point with an errno-carrying error; with few points (or every third point otherwise) also with an
     # OSError built from a message only (numpy's short-write error carries no errno)
-    runs = [(k, False) for k in points] + [(k, True) for k in (points if len(points) <= 12 else points[::3])]
+    # and every write point (every second one when there are many) as a DEFERRED error: write() accepts the data, the
+    # error comes when the buffer is flushed (flush / close / end of the with block) - what a full disk does to a
+    # header smaller than the I/O buffer
+    wpts = [k for k in points if kinds[k - 1] == "write"]
+    runs = [(k, False) for k in points] + [(k, True) for k in (points if len(points) <= 12 else points[::3])] + \
+           [(k, "deferred") for k in (wpts if len(wpts) <= 12 else wpts[::2])]
     for k, plain in runs:
         pools.CTL.reset(mode="inproc", default="identity")
         faults.install()
         faults.S.reset(fail_at=k)
+        deferred = plain == "deferred"
+        plain = plain is True
         faults.S.plain = plain
+        faults.S.deferred = deferred
         exc = None
         try:
             call()
@@ -498,15 +508,17 @@ def run_faults(case, work, rec):
         finally:
             faults.uninstall()
         inj = faults.S.injected
-        key = (tool, form, "fault", k, "plain" if plain else "errno")
+        key = (tool, form, "fault", k, "plain" if plain else "deferred" if deferred else "errno")
         if plain:
             rec.count("fault_points_injected_without_errno")
+        if deferred and inj is not None:
+            rec.count("fault_points_injected_deferred")
         if inj is None:
             rec.undecided("fault point not reached on replay (non-deterministic invocation)")
         else:
             rec.count("fault_points_injected")
             rec.seen("fault_kinds", f"{tool}:{inj[0]}")
-            descr = f"{tool}{' entry point' if form == 'cli' else ''}: fault #{k}/{npoints}{' (OSError without errno)' if plain else ''} ({inj[0]} on {os.path.relpath(inj[1], sb.root) if inj[1].startswith(sb.root) else inj[1]})"
+            descr = f"{tool}{' entry point' if form == 'cli' else ''}: fault #{k}/{npoints}{' (OSError without errno)' if plain else ' (error deferred to flush / close)' if deferred else ''} ({inj[0]} on {os.path.relpath(inj[1], sb.root) if inj[1].startswith(sb.root) else inj[1]})"
             probs = []
             for p, s0 in snaps0.items():
                 d = fsaudit.diff_snap(s0, fsaudit.snapshot(p))
